@@ -531,6 +531,9 @@ def run_property(prop, tier, spec, py_jobs=None):
                 rs = r if isinstance(r, list) else [r]
                 for r in rs:
                     r['crate_dir'] = d
+                    for x in r.pop('extractions', None) or []:
+                        x.setdefault('crate', r.get('crate'))
+                        extractions.append(x)
                     results.append(r)
                     log(f"[{prop}]   {r['harness']:<44} {r['state']:<9} {r.get('wall_s', 0):7.1f}s "
                         f"covers {r.get('covers_sat', 0)}/{r.get('covers_total', 0)}"
